@@ -416,6 +416,8 @@ CHECKS = {
             # name (default, a second scripted one, always-failing, always-succeeding, never registered, left out of this case's Manager) varies between the requests for the address
             # while a dial is pending, the connection is held or was just released; contexts background / already cancelled / cancelled later / deadline in virtual time (tick steps)
             dict(name="dialers", run="TestC16Dialers", checks=dict(quick=3000, thorough=30000), shards=dict(quick=1, thorough=8)),
+            # the Manager as NewManager builds it (real grpc.DialContext over a silent in-process pipe), read off the channel's connectivity state
+            dict(name="default", run="TestC16Default", checks=dict(quick=300, thorough=6000), shards=dict(quick=2, thorough=8)),
             # the last release as a call that takes time (stepwise in a bubble): ClientConn.Close() of a connection in any connectivity state (IDLE / CONNECTING / TRANSIENT_FAILURE / READY over net.Pipe to an
             # in-bubble gRPC server / dropped) parks in a harness-owned resolver or transport Close(); requests for that and another address, repeated releases, another call of the parked done func, cancellations
             # are started meanwhile; either-way oracle (waiting behind the lock and completing at once are both fine), holder-local and per-address invariants
@@ -1181,6 +1183,9 @@ EXT2 = {
 }
 # round 5 (seeds I, J)
 EXT3 = {
+    "C16": dict(level_text=" Part default: the Manager built by NewManager (its dialer is the real grpc.DialContext) over a transport that accepts and stays silent; requests with "
+                           "background, cancellable and expiring contexts, cancellations after the hand-out, releases in any order; a handed-out channel is never SHUTDOWN while a holder has not "
+                           "released it, all holders of an address share it, the last release closes it, a request with a done context holds nothing."),
     "C18": dict(technique=("; every optional field of client.Query and every nil / given combination of the two client.Reconnect callbacks as generated dimensions; real-transport subscriptions ended "
                            "through their context, decided by a structural quiescence verdict (goroutine states and socket queues of the process) instead of a time guard"),
                 level_text=(" Added (seeds O, P): (1) the constructor arguments of client.Reconnect are a dimension of every part that builds a reconnecting client (random, lifetime, entry, types, content, "
